@@ -65,6 +65,8 @@ def expected_rows(spec, f):
             ok = tgt is not None and has(tgt, f['t'])
         elif k == 'paren':
             ok = (has(j, f['t']) or has(j, f['u'])) and j > f['v']
+        elif k == 'noparen':
+            ok = has(j, f['t']) or (has(j, f['u']) and j > f['v'])      # `and` binds tighter than `or`
         elif k == 'coord':
             ok = j == f['v']
         elif k == 'uri':
@@ -102,6 +104,8 @@ def filter_text(f):
         s = 'siteRef->%s' % f['t']
     elif k == 'paren':
         s = '(%s or %s) and n > %d' % (f['t'], f['u'], f['v'])
+    elif k == 'noparen':
+        s = '%s or %s and n > %d' % (f['t'], f['u'], f['v'])
     elif k == 'coord':
         s = 'geo == C(%s,%s)' % (float(f['v']), float(f['v']) / 2)
     elif k == 'uri':
@@ -239,6 +243,14 @@ class C13(BaseCheck):
             pool.append(f)
             # deliberate near-collision partner: a text differing only in case / inner blanks / an accent
             # inside a string literal denotes a different row
+            if kind == 'paren' and k.random() < 0.6 and len(pool) < size:
+                # same words without the parentheses: a different filter (printing the AST loses the difference)
+                pf = {'kind': 'noparen', 't': f['t'], 'u': f['u'], 'v': f['v']}
+                prow = expected_rows(spec, pf)
+                if prow and len(prow) < n and tuple(prow) not in seen:
+                    seen[tuple(prow)] = 1
+                    pf['rows'] = prow
+                    pool.append(pf)
             if kind == 'str' and f['s'] in STR_PARTNER and k.random() < 0.6 and len(pool) < size:
                 pf = {'kind': 'str', 'o': f['o'], 's': STR_PARTNER[f['s']]}
                 prow = expected_rows(spec, pf)
